@@ -300,6 +300,13 @@ def one_run(pb, rec, key, tier, si, b, declared, undeclared, tdef, gfl, insts, r
             sensing = isinstance(a, SensingAction)
             stepd = [a.name, list(args)]
             ai = ActionInstance(a, seqsem.param_exprs(pb, a, args))
+            if sensing and r.status == OKAY:
+                # observing a fluent that has no value in the current state: "the current value of the sensed fluent" does not
+                # exist, the statement does not say what the observation must be (the library raises UPStateMissingFluentError)
+                I0 = Interp(pb, tracked, {p.name: v for p, v in zip(a.parameters, args)})
+                if any(tracked.get((of.fluent().name, tuple(ev(x, I0, "strict") for x in of.args)), UNDEF) is UNDEF for of in a.observed_fluents):
+                    res.count("dontcare:sensing-a-fluent-without-value")
+                    continue
             res.mon()
             raised = None
             obs = None
